@@ -11,6 +11,10 @@ fns, opaque external types with assume_specification) and whose executable funct
     //@loop <k> <clause text>         invariant/decreases lines for the k-th loop (source order, from 0)
     //@subst <old>=><new>             literal replacement in signature+body (each counted, each listed in evidence)
     //@subst_re <regex>=><new>        same with a (DOTALL) regular expression, for multi-line `assert!(.., "fmt", ..)`
+    //@subst_alt <group> <regex>=><new>  alternatives for ONE site that may legitimately have more than one shape (e.g. before
+                                      and after a repair): the first alternative of the group whose regex matches is applied; if
+                                      none matches the anchor is lost (exit 2).  Lets a shape that VIOLATES the contract still be
+                                      put in front of the verifier instead of being reported as a lost anchor.
     //@before <anchor>=><text>        ghost text (proof blocks only) inserted before the first occurrence of anchor
     //@after <anchor>=><text>         ... or right after it
     //@end
@@ -141,6 +145,10 @@ def generate(unit, repo):
                 elif d.startswith("//@subst_re "):
                     a, b = split_arrow(d[len("//@subst_re "):])
                     substs.append(("re:" + a, b))
+                elif d.startswith("//@subst_alt "):
+                    g, rest = d[len("//@subst_alt "):].split(None, 1)
+                    a, b = split_arrow(rest)
+                    substs.append(("alt:" + g + ":" + a, b))
                 elif d.startswith("//@subst "):
                     a, b = split_arrow(d[len("//@subst "):])
                     substs.append((a, b))
@@ -168,7 +176,23 @@ def generate(unit, repo):
                 counts["R5_visibility"] = nvis
             body = extract.apply_body_rules(body, counts, info["dropped"])
             body = extract.strip_comments(body)  # R0
+            alt_done, alt_seen = set(), {}
             for a, b in substs:
+                if a.startswith("alt:"):
+                    _, g, rxs = a.split(":", 2)
+                    alt_seen.setdefault(g, False)
+                    if g in alt_done:
+                        continue
+                    rx = re.compile(rxs, re.S)
+                    found = rx.findall(body)
+                    if not found:
+                        continue
+                    rep = (lambda _m: _m.expand(b)) if re.search(r"\\[1-9]", b) else (lambda _m: b)
+                    body = rx.sub(rep, body)
+                    alt_done.add(g)
+                    alt_seen[g] = True
+                    info["substs"].append({"fn": spec, "alt_group": g, "old_regex": rxs, "new": b, "count": len(found)})
+                    continue
                 if a.startswith("re:"):
                     rx = re.compile(a[3:], re.S)
                     found = rx.findall(body) + rx.findall(sig)
@@ -185,6 +209,9 @@ def generate(unit, repo):
                 sig = sig.replace(a, b)
                 body = body.replace(a, b)
                 info["substs"].append({"fn": spec, "old": a, "new": b, "count": n})
+            for g, okk in alt_seen.items():
+                if not okk:
+                    raise ValueError("lost anchor: no alternative of subst_alt group %r matches in %s" % (g, spec))
             if none_ty:
                 # R8: every `&mut None` argument becomes `&mut <fresh local>`, declared at the top of the body
                 # (Verus cannot take `&mut` of a temporary)
@@ -319,28 +346,41 @@ def first_error(err):
 
 
 def error_blocks(err, line_map, text=""):
+    """One entry per Verus error: the function is the nearest preceding `fn` of the generated text (qualified by its
+    `impl`), the code is the generated line the error points at, plus the clause Verus marks as failed."""
     res = []
     tlines = text.split("\n")
-    for m in re.finditer(r"error: ([^\n]+)\n\s*--> ([^\n:]+):(\d+):(\d+)\n(?:[^\n]*\n){0,3}", err):
-        msg, _, line = m.group(1), m.group(2), int(m.group(3))
-        fn = "?"
-        for a, b, name in line_map:
-            if a <= line <= b:
-                fn = name
-        snippet = m.group(0).split("\n")
-        code = ""
-        for s in snippet:
-            mm = re.match(r"\s*%d \|\s?(.*)" % line, s)
+    blocks = re.split(r"(?m)^(?=error|warning)", err)
+    for b in blocks:
+        m = re.match(r"error: ([^\n]+)\n\s*--> ([^\n:]+):(\d+):(\d+)\n", b)
+        if not m:
+            continue
+        msg, line = m.group(1), int(m.group(3))
+        fn, k = "?", min(line, len(tlines)) - 1
+        while k >= 0:
+            mm = re.search(r"\bfn (\w+)", tlines[k])
+            if mm and not tlines[k].lstrip().startswith("//"):
+                fn = mm.group(1)
+                break
+            k -= 1
+        while k >= 0 and fn != "?":
+            mm = re.match(r"impl(?:<[^>]*>)?\s+(?:[\w:<>, ]+\s+for\s+)?(\w+)", tlines[k])
             if mm:
-                code = mm.group(1).strip()
-        if fn == "?":
-            # nearest preceding `fn name` in the generated text (hand-written lemmas, probes)
-            k = min(line, len(tlines)) - 1
-            while k >= 0:
-                mm = re.search(r"\bfn (\w+)", tlines[k])
-                if mm:
-                    fn = mm.group(1)
-                    break
-                k -= 1
-        res.append({"desc": "verus.%s: %s: `%s`" % (fn, msg, code[:120]), "loc": "generated line %d" % line, "fn": fn})
+                fn = mm.group(1) + "::" + fn
+                break
+            if re.match(r"\}\s*$", tlines[k]) and k < line - 1 and not tlines[k].startswith(" "):
+                break  # a top-level item ended between: free function
+            k -= 1
+        code = tlines[line - 1].strip() if 0 < line <= len(tlines) else ""
+        clause = ""
+        mm = re.search(r"\n\s*(\d+) \|\s*([^\n]*)\n\s*\|\s*-+ failed (?:precondition|this postcondition)?", b)
+        if mm:
+            clause = mm.group(2).strip()
+        mm2 = re.search(r"\n\s*\|\s*\^+ failed this postcondition", b)
+        if mm2 and not clause:
+            clause = code
+        desc = "verus.%s: %s: `%s`" % (fn, msg, code[:160])
+        if clause and clause != code:
+            desc += " clause `%s`" % clause[:160]
+        res.append({"desc": desc, "loc": "generated line %d" % line, "fn": fn})
     return res
